@@ -69,6 +69,14 @@ def pcm_multi(rng, n, ch, bps, shape=None):
             chans.append([clamp(-x, bps) for x in base])                              # inverted
         else:
             chans.append(pcm_shape(rng, rng.choice(SHAPES), n, bps))
+    if ch >= 2 and rng.random() < 0.2:
+        # one channel silent or constant while the others are live (a muted microphone, mono on one side): the
+        # per-channel "all zero" shortcuts of the stereo decorrelation are taken for one role only
+        c = rng.randrange(ch)
+        v = 0 if rng.random() < 0.7 else clamp(rng.choice([1, -1, 1000, -(1 << (bps - 1))]), bps)
+        chans[c] = [v] * n
+        if chans[1 - c if ch == 2 else (c + 1) % ch] == chans[c]:
+            chans[1 - c if ch == 2 else (c + 1) % ch] = pcm_shape(rng, rng.choice(['noise', 'sine', 'ramp']) if {'noise', 'sine', 'ramp'} <= set(SHAPES) else rng.choice(SHAPES), n, bps)
     out = []
     for i in range(n):
         for c in range(ch):
@@ -89,10 +97,13 @@ def option_fields(rng, small=True):
         f['lpc'] = rng.choice(['none', '1', '2', '8', '12', '31', '32']) if rng.random() < 0.8 else str(rng.randint(1, 32))
     if rng.random() < 0.7:
         f['po'] = str(rng.choice([0, 1, 2, 3, 4, 5, 6, 8, 15]))
-    if rng.random() < 0.5:
-        f['ms'] = str(rng.randint(0, 1))
-    if rng.random() < 0.5:
-        f['exh'] = str(rng.randint(0, 1))
+    if rng.random() < 0.15:
+        f['ms'] = '0'; f['exh'] = '0'         # Options::fast(): the non-exhaustive, no-mid-side decorrelation path
+    else:
+        if rng.random() < 0.5:
+            f['ms'] = str(rng.randint(0, 1))
+        if rng.random() < 0.5:
+            f['exh'] = str(rng.randint(0, 1))
     if rng.random() < 0.4:
         f['win'] = rng.choice(['rect', 'hann', 'tukey:0.5', 'tukey:0', 'tukey:1', 'tukey:0.01', 'tukey:2', 'tukey:-1'])
     return f
